@@ -61,6 +61,9 @@ def register(reg):
     ex.write_field(st, VRef('threading.Thread', args[0].t), 'alive', VBool(True))
     if 'body_starts' in st.ghost:
       st.ghost['body_starts'] = VInt(st.ghost['body_starts'].t + 1)      # ghost: number of phase bodies started
+    hook = reg.start_effects.get(getattr(args[0].cls, 'name', None))
+    if hook:
+      hook(ex, st, args[0])
     return [(st, NONE)]
 
   def th_is_alive(ex, st, args, kwargs):
@@ -71,15 +74,26 @@ def register(reg):
     ex.ctx.use_trusted('threading.Thread.join')
     ex.event(st, ('thread.join', args[0].t))
     th = args[0]
+    timeout = args[1] if len(args) > 1 else kwargs.get('timeout', NONE)
+    if '$join_must_be_bounded' in st.ghost:
+      # the unit promises never to wait for this kind of thread without a timeout (a hung thread is abandoned)
+      from pyvc.state import Obligation
+      unbounded = z3.BoolVal(True) if isinstance(timeout, VNone) else (Val.is_VN(timeout.t) if isinstance(timeout, VVal) else z3.BoolVal(False))
+      ex.ctx.obligations.append(Obligation('%s/wait.join_has_a_timeout@%s' % (ex.ctx.unit, ex.stmt_key(ex.cur_node)), 'order', list(st.pc),
+                                           z3.Or(z3.Not(unbounded), z3.Not(st.ghost['$join_must_be_bounded'].t)), '',
+                                           {'msg': 'join() without a timeout: a thread that never finishes blocks the caller forever'}))
     was = ex.read_field(st, VRef('threading.Thread', th.t), 'alive').t
     now = fresh('alive', z3.BoolSort())
     st.assume(z3.Implies(z3.Not(was), z3.Not(now)))
+    if isinstance(timeout, VNone):
+      st.assume(z3.Not(now))           # join() without timeout returns only once the thread has finished
     ex.write_field(st, VRef('threading.Thread', th.t), 'alive', VBool(now))
     hook = reg.join_effects.get(getattr(th.cls, 'name', None))
     if hook:
       hook(ex, st, th)
     return [(st, NONE)]
   reg.join_effects = {}
+  reg.start_effects = {}
   for k, f in (('start', th_start), ('is_alive', th_is_alive), ('join', th_join)):
     tm[('threading.Thread', k)] = f
 
